@@ -596,7 +596,7 @@ Lemma astep_Jc fuel a o :
   Jc (a_s a) -> snd (astep content isman fuel a o) = true ->
   Jc (a_s (fst (astep content isman fuel a o))).
 Proof.
-  intros HJ Hok. destruct o as [op|v|]; cbn [astep] in *.
+  intros HJ Hok. destruct o as [op|v| |bad]; cbn [astep] in *.
   - destruct (ostep true true true content isman fuel (a_s a) op) as [s' ok] eqn:E.
     assert (s' = fst (ostep true true true content isman fuel (a_s a) op)) as Es by (rewrite E; reflexivity).
     assert (match op with PReopen => False | _ => True end -> Jc s') as Hnr.
@@ -609,6 +609,7 @@ Proof.
       apply Jc_synced_J; auto.
   - exact HJ.
   - cbn [fst a_s]. apply (Jc_core (a_s a)); [reflexivity | exact HJ].
+  - exact HJ.
 Qed.
 
 Lemma arun_Jc fuel ops : forall a,
@@ -806,3 +807,10 @@ Lemma names_example :
               NTag 2%N 7%N; NTag 3%N 7%N; NOp (AOp (PGC []))] in
   snd r = true /\ o_tagged (a_s (fst r)) = [3%N] /\ predecessors (o_graph (a_s (fst r))) 0%N = [2%N].
 Proof. vm_compute. repeat split. Qed.
+
+(* a Push of an undecodable manifest in the middle of a history leaves no trace *)
+Lemma bad_push_example :
+  let ops1 := [AOp (PPush 0%N); AOp (PPush 2%N); ABadPush 9%N; AOp (PPush 3%N); AOp PReopen] in
+  let ops2 := [AOp (PPush 0%N); AOp (PPush 2%N); AOp (PPush 3%N); AOp PReopen] in
+  arun (ctab pf_ct) pf_isman 50 empty_astore ops1 = arun (ctab pf_ct) pf_isman 50 empty_astore ops2.
+Proof. vm_compute. reflexivity. Qed.
